@@ -51,3 +51,20 @@ func normPayload(m *rec.Rec) {
 	})
 	m.Normalize()
 }
+
+func TestSaturatedFamilies(t *testing.T) {
+	for k := 0; k < SaturatedControllerFamilies; k++ {
+		m := SaturatedController(prng.Derive(5, uint64(k)), k)
+		b, err := spec.EncodeMessage(m)
+		if err != nil || len(b) < 30000 {
+			t.Errorf("controller family %d: %s, %d bytes, %v", k, m.K, len(b), err)
+		}
+	}
+	for k := 0; k < SaturatedSwitchFamilies; k++ {
+		m := SaturatedSwitch(prng.Derive(5, uint64(k)), k)
+		b, err := spec.EncodeMessage(m)
+		if err != nil || len(b) < 30000 {
+			t.Errorf("switch family %d: %s, %d bytes, %v", k, m.K, len(b), err)
+		}
+	}
+}
